@@ -3,7 +3,11 @@
 import json, os
 V = os.path.dirname(os.path.dirname(os.path.abspath(__file__)))
 props = [json.loads(l) for l in open(os.path.join(V, "properties.jsonl"))]
-table = json.load(open(os.path.join(V, "tools", "manifest_table.json")))
+table = {}
+md = os.path.join(V, "tools", "manifest.d")
+for f in sorted(os.listdir(md)):
+    if f.endswith(".json"):
+        table.update(json.load(open(os.path.join(md, f))))
 checks = []
 na = []
 for p in props:
